@@ -117,13 +117,16 @@ Definition case_model_bad (c : c06_case) : bool :=
 
 (** ** The oracle *)
 
-(** Is the case inside the property's domain?  No white space other than ' '
-    in clause texts, tempo >= 0. *)
+(** Is the case inside the property's domain?  tempo >= 0; in clause texts
+    every run of white space with a newline / tab in it that separates two acts
+    also contains a blank ([Denote.ws_ok]: multi-line clauses, tabs next to
+    blanks); the oracle then reads the clause with all white space turned into
+    blanks ([Denote.blank_ws]). *)
 Definition ctl_space (c : byte) : bool :=
   match c with x09 | x0a | x0b | x0c | x0d => true | _ => false end.
 Definition cmd_in_domain (c : cmd) : bool :=
   match c with
-  | CStoryline t => negb (existsb ctl_space t)
+  | CStoryline t => ws_ok t
   | _ => true
   end.
 Definition in_domain (c : c06_case) : bool :=
@@ -147,7 +150,8 @@ Fixpoint oracle_walk (cs : cast) (dfn : list byte) (text : list bytes) (cols : l
   | [], [] => (Some cols, false)
   | c :: ctl, o :: otl =>
       match c with
-      | CStoryline t =>
+      | CStoryline t0 =>
+          let t := blank_ws t0 in
           if wf_story (mem_byte dfn) (acts_of t) then
             match o with
             | Ok new =>
